@@ -31,7 +31,7 @@ FAMILIES = {
     'wt_und4': ('u', 4, WT, 'q'), 'wt_dir3': ('d', 3, WT, 'q'),
     'sg_und5': ('u', 5, (-1, 0, 1), 'q'), 'sg_dir3': ('d', 3, (-1, 0, 1, 2), 'q'),   # signed: weights can cancel
     'bin_und6_paths': ('u', 6, BIN, 'q'),   # path-based pairs only (quick); everything in thorough
-    'bin_und6': ('u', 6, BIN, 't'), 'wt_und5': ('u', 5, WT, 't'), 'wt_dir4': ('d', 4, WT, 't'),
+    'bin_und6': ('u', 6, BIN, 't'), 'bin_dir5_paths': ('d', 5, BIN, 't'), 'wt_und5': ('u', 5, WT, 't'), 'wt_dir4': ('d', 4, WT, 't'),
 }
 
 
